@@ -5,7 +5,7 @@
     source are regenerated into Gen/FsWalk_gen.v on every run and the premises [backend_keys_ok], [walk_ok] (and
     the chain parameters) are discharged for them by kernel-checked instance obligations in checks/c19.py. *)
 From Coq Require Import List NArith Bool Permutation.
-From SV Require Import SM.FsChain SM.FsChainProofs SM.FsChainRel SM.FsChainWitness SM.FsChainRaw SM.FsChainCompose SM.FsChainComplete SM.FsChainNorm SM.FsChainForms SM.FsChainFormsProofs SM.FsChainWhole.
+From SV Require Import SM.FsChain SM.FsChainProofs SM.FsChainRel SM.FsChainWitness SM.FsChainRaw SM.FsChainCompose SM.FsChainComplete SM.FsChainNorm SM.FsChainForms SM.FsChainFormsProofs SM.FsChainWhole SM.FsChainRead SM.FsChainReadProofs.
 Import ListNotations.
 Open Scope N_scope.
 
@@ -467,3 +467,30 @@ Theorem c19_chain_iter_lists_spec : forall dops ms q f,
   chain_spec (map k_spec ms) q = Some f ->
   exists x, In x (chain_walk RelDropSegs dops (map k_member ms) []) /\ nkey (fst x) = nkey q /\ snd x = f.
 Proof. exact chain_iter_lists_spec. Qed.
+
+(** ** Round 3: the container's reader [FileInfo.read()] as translated from vpk.py. *)
+
+(** A reader recognised as whole ([rexpr_whole]: the preload alone only where there is no rest; otherwise the preload
+    followed by exactly the [arch_len] bytes at [offset] of the home the rest lives in - displacements 0 and 0, the
+    directory block iff [arch_index is None]) returns the stored bytes for every split between preload and rest, both
+    homes, and wherever in its home the rest lies ([before], [after] arbitrary). *)
+Theorem c19_vpk_reader_whole_all_placements : forall e before after limit in_dir data,
+  rexpr_whole None false e = true -> reval e (rfile_of before after limit in_dir data) = data.
+Proof. exact reader_whole_all_placements. Qed.
+(** The VPK backend's content expression evaluated over the translated reader: whole over whole hands out the stored
+    bytes (so [c19_vpk_open_same_bytes], which takes [file.read()] as "preload ++ rest", applies to today's source). *)
+Theorem c19_vpk_open_through_reader : forall rd c before after limit in_dir data,
+  rexpr_whole None false rd = true -> cexpr_whole false c = true ->
+  ceval_r rd c (rfile_of before after limit in_dir data) = data.
+Proof. exact open_through_reader_all_placements. Qed.
+(** A reader that slices the directory block one byte short is not recognised, and loses the last byte of a file whose
+    rest is kept there - also through a backend that opens with [file.read()]. *)
+Theorem c19_vpk_reader_short_refuted :
+  rexpr_whole None false reader_today = true /\ rexpr_whole None false reader_short = false
+  /\ reval reader_short (rfile_of [9] [8] 1 true [1; 2; 3]) = [1; 2]
+  /\ reval reader_today (rfile_of [9] [8] 1 true [1; 2; 3]) = [1; 2; 3]
+  /\ ceval_r reader_short CRead (rfile_of [9] [8] 1 true [1; 2; 3]) = [1; 2].
+Proof.
+  split; [exact reader_today_whole|]. destruct reader_short_refuted as [A [B [C _]]]. destruct open_through_short_reader_refuted as [D _].
+  repeat split; assumption.
+Qed.
